@@ -3,6 +3,7 @@ import TensoraVerif.Model.Storage
 import TensoraVerif.Model.IRWire
 import TensoraVerif.Model.AlgebraWire
 import TensoraVerif.Model.GraphWire
+import TensoraVerif.Model.ParserWire
 import TensoraVerif.Lemmas.PeepholeExact
 open TV
 
@@ -168,6 +169,32 @@ def handle (cmd : String) (args : List Sexp) : Sexp :=
   | "ECHOM", [m] =>
     match IR.Wire.moduleOf m with
     | some m => IR.Wire.moduleToSexp m
+    | none => Sexp.mk "bad-request" [.str "unknown-constructor"]
+  | "PARSE", [.str s] =>
+    match Parse.parseAssignment s with
+    | .ok a => Sexp.mk "ok" [Parse.Wire.assignToSexp a]
+    | .error e => Sexp.mk "err" [.atom (Parse.Wire.errName e)]
+  | "DEPARSE", [a] =>
+    match Parse.Wire.assignOf a with
+    | some a => .str a.deparse
+    | none => Sexp.mk "bad-request" [.str "unknown-constructor"]
+  | "VALIDATE", [a] =>
+    match Parse.Wire.assignOf a with
+    | some a => match Parse.validate a with
+      | some e => Sexp.mk "err" [.atom (Parse.Wire.errName e)]
+      | none => Sexp.mk "ok" []
+    | none => Sexp.mk "bad-request" [.str "unknown-constructor"]
+  | "PARSEFMT", [.str s] =>
+    match Parse.parseFormat s with
+    | .ok f => Sexp.mk "ok" [Parse.Wire.fmtToSexp f]
+    | .error e => Sexp.mk "err" [.atom (Parse.Wire.fmtErrName e)]
+  | "PARSENAMED", [.str s] =>
+    match Parse.parseNamedFormat s with
+    | .ok (n, f) => Sexp.mk "ok" [.str n, Parse.Wire.fmtToSexp f]
+    | .error e => Sexp.mk "err" [.atom (Parse.Wire.fmtErrName e)]
+  | "DEPARSEFMT", [f] =>
+    match Parse.Wire.fmtOf f with
+    | some f => .str f.deparse
     | none => Sexp.mk "bad-request" [.str "unknown-constructor"]
   | "EXHAUST", [e, .list refs] =>
     match Graph.Wire.idExprOf e, refs.mapM Sexp.toStr? with
